@@ -141,12 +141,34 @@ func (e *Engine) fieldComp(si *structInfo, i int) (string, string) {
 
 func (e *Engine) elemComp(t types.Type) (string, string) {
 	s := e.sortOf(t)
-	return e.compName("E", s, ""), "(Array Int (Array Int " + s + "))"
+	return e.compName("E", s, kindTag(t)), "(Array Int (Array Int " + s + "))"
 }
 
 func (e *Engine) ptrComp(t types.Type) (string, string) {
 	s := e.sortOf(t)
-	return e.compName("P", s, ""), "(Array Int " + s + ")"
+	return e.compName("P", s, kindTag(t)), "(Array Int " + s + ")"
+}
+
+// kindTag separates memory components of Go types that share an SMT sort
+// (integers, interfaces, pointers, maps are all Int) but can never alias.
+func kindTag(t types.Type) string {
+	switch u := types.Unalias(t).Underlying().(type) {
+	case *types.Interface:
+		return "iface"
+	case *types.Pointer:
+		return "ptr"
+	case *types.Map:
+		return "map"
+	case *types.Signature:
+		return "func"
+	case *types.Chan:
+		return "chan"
+	case *types.Basic:
+		if u.Info()&types.IsUnsigned != 0 {
+			return "u"
+		}
+	}
+	return ""
 }
 
 // addrOf turns a pointer-typed value into an address.
@@ -941,6 +963,9 @@ func (e *Engine) step(st *State, in ssa.Instruction) {
 					if fr.vars[obj.Name()].Addr == nil {
 						delete(fr.vars, obj.Name())
 					}
+				} else if cur, ok := fr.vars[obj.Name()]; ok && cur.T == "addr" && cur.Addr != nil && cur.Addr.Kind != aCell {
+					// the variable lives in a heap cell (captured by a closure):
+					// its current value is the cell's content, not this definition
 				} else {
 					fr.vars[obj.Name()] = v
 				}
@@ -951,6 +976,7 @@ func (e *Engine) step(st *State, in ssa.Instruction) {
 		if at, ok := et.Underlying().(*types.Array); ok {
 			// arrays live in regions so that they can be sliced
 			r := e.freshRef(st, fr.fn.Name()+"."+x.Name())
+			e.notePrivType(r, types.NewSlice(at.Elem()))
 			c, s := e.elemComp(at.Elem())
 			h := e.heapGet(st, c, s)
 			e.heapSet(st, c, s, sx("store", h, r, e.zeroOf(et)))
@@ -965,9 +991,14 @@ func (e *Engine) step(st *State, in ssa.Instruction) {
 			return
 		}
 		r := e.freshRef(st, fr.fn.Name()+"."+x.Name())
+		e.notePrivType(r, x.Type())
 		v := &Val{T: r, Ty: x.Type()}
 		e.store(st, e.addrOf(v), e.zeroOf(et))
 		e.set(st, x, v)
+		if x.Comment != "" && x.Comment != "complit" && x.Comment != "varargs" {
+			// a source variable that lives on the heap (captured): name -> cell
+			fr.vars[x.Comment] = &Val{Addr: e.addrOf(v), Ty: x.Type(), T: "addr"}
+		}
 	case *ssa.Store:
 		a := e.addrOf(e.get(st, x.Addr))
 		v := e.get(st, x.Val)
@@ -1056,6 +1087,7 @@ func (e *Engine) step(st *State, in ssa.Instruction) {
 		cp := e.get(st, x.Cap).T
 		e.emit(st, "bounds", e.site(x, "makeslice"), and(sx("<=", "0", ln), sx("<=", ln, cp)), "make: 0 <= len <= cap "+e.posOf(x.Pos()))
 		r := e.freshRef(st, "mk")
+		e.notePrivType(r, x.Type())
 		et := x.Type().Underlying().(*types.Slice).Elem()
 		c, s := e.elemComp(et)
 		h := e.heapGet(st, c, s)
@@ -1142,12 +1174,14 @@ func (e *Engine) unop(st *State, x *ssa.UnOp) {
 		fr := st.top()
 		ty := x.Type()
 		var term string
-		if a.Kind == aPtr && len(a.Path) == 0 && st.priv[a.Ref] && st.privClean[a.Ref] {
-			// a private cell that holds a value from outside (e.g. a captured
-			// parameter): the loaded value does not reveal the cell
+		if (a.Kind == aPtr || a.Kind == aElem) && e.isPrivateRef(st, a.Ref) {
+			// loaded from a private object: the value does not reveal the
+			// object's own reference; which private references it can hold is
+			// decided by its type (Go type safety)
 			term = e.freshName(fr.fn.Name() + "." + x.Name())
 			st.declare(term, e.sortOf(ty))
 			st.define(eq(term, t))
+			e.setTypeDeps(st, term, ty)
 		} else {
 			term = e.named(st, fr.fn.Name()+"."+x.Name(), t, e.sortOf(ty))
 		}
@@ -1543,6 +1577,7 @@ func (e *Engine) convert(st *State, x *ssa.Convert) {
 		// string -> []byte / []rune: fresh region whose length is the string length
 		if sl, ok := to.(*types.Slice); ok {
 			r := e.freshRef(st, "s2b")
+			e.notePrivType(r, x.Type())
 			ln := sx("str.len", v.T)
 			c, s := e.elemComp(sl.Elem())
 			h := e.heapGet(st, c, s)
